@@ -1,5 +1,6 @@
 import Srctools.Proofs.C15
 import Srctools.Proofs.C15Struct
+import Srctools.Proofs.C15Compute
 import Srctools.Model.C15File
 import Srctools.Gen.Vtf
 /-!
@@ -526,6 +527,118 @@ theorem C15_le_roundtrip (k n : Nat) (h : n < 256 ^ k) :
     leDecode (le k n) = n ∧ (le k n).length = k := by
   rw [leDecode_le, Nat.mod_eq_of_lt h, length_le]; exact ⟨rfl, rfl⟩
 
+/-! ## The whole file: `VTF.read (VTF.save v)`
+
+`saveFile` / `readFile` are the byte-exact models of `VTF.save` / `VTF.read` (`Model/C15File.lean`,
+tied to the implementation byte for byte on every run). `saveWF` (decidable, `Proofs/C15File.lean`)
+says every field fits its width: sizes/counts < 2^16, flags < 2^32, 12 + 4 float bytes, known formats,
+resource ids of 3 bytes, distinct, not reserved, flag bytes, 32-bit values / lengths / offsets, at most
+64 sheet sequences with distinct numbers < 64 and 4 + 64 byte frames, frames of the sizes the header
+implies, depth ≥ 1. `viewOf` is what the reader must see. -/
+
+/-- Particle sheet block: `from_resource (make_data seqs ver) = seqs`, up to what the sheet version
+stores (version 0 keeps one coordinate set per frame, read back four times). -/
+theorem C15_sheet_roundtrip (seqs : List SheetSeq) (ver : Nat) (hver : ver ≤ 1)
+    (hwf : sheetWF seqs = true) :
+    parseSheet (sheetData seqs ver) = .ok (seqs.map (normSeq ver)) ∧
+    (ver = 1 → seqs.map (normSeq ver) = seqs) := by
+  refine ⟨parseSheet_sheetData seqs ver hver hwf, ?_⟩
+  rintro rfl
+  have : ∀ s : SheetSeq, normSeq 1 s = s := by
+    intro s
+    have hf : (normFrame 1) = id := by funext fr; simp [normFrame]
+    cases s; simp [normSeq, hf]
+  rw [List.map_congr_left (fun s _ => this s)]; simp
+
+/-- Resource table + resource blocks + sheet resource: reading the table `save` writes, and the
+blocks at the offsets stored in it, gives every resource back in order (bit `0x02` of the flags =
+storage kind), the sheet, and the offsets of thumbnail and image data. -/
+theorem C15_resources_roundtrip (v : Vtf) (minor sheetVer lowLen : Nat) (H tail file : List Nat)
+    (hm : minor ≥ 3) (hH : H.length = preLen minor)
+    (hfile : file = H ++ (resTable v minor sheetVer lowLen ++
+      ((resBlocks v.res).flatten ++ (sheetBlock v minor sheetVer ++ tail))))
+    (hwf : resPartWF v minor sheetVer lowLen = true) :
+    readResources file (resTable v minor sheetVer lowLen ++
+        ((resBlocks v.res).flatten ++ (sheetBlock v minor sheetVer ++ tail)))
+      = .ok (v.res.map normRes, v.sheet.map (normSeq sheetVer), some (lowOff v minor sheetVer),
+             some (lowOff v minor sheetVer + lowLen)) :=
+  readResources_ok v minor sheetVer lowLen H tail file hm hH hfile hwf
+
+/-- Header, resources, sheet and frame table of any laid-out file (whatever the encoded images
+are): `readFile` returns exactly `viewOf`. -/
+theorem C15_layout_roundtrip (v : Vtf) (minor sheetVer : Nat) (asw : Bool) (lowBytes : List Nat)
+    (blocks : List (List Nat)) (hwf : fileWF v minor sheetVer lowBytes.length = true)
+    (hlow : minor < 3 → lowBytes.length = frameSize (fmtOf v.lowFmt) v.low.w v.low.h) :
+    readFile (fileBytes v minor sheetVer asw lowBytes blocks)
+      = .ok (viewOf v minor sheetVer lowBytes.length) :=
+  readFile_fileBytes v minor sheetVer asw lowBytes blocks hwf hlow
+
+/-- **File round trip.** If `VTF.save` succeeds on a well-formed object, `VTF.read` of the bytes
+returns `viewOf v`: version, width, height, flags, frame count, first frame, reflectivity, bump
+scale, both formats, mipmap count, thumbnail size, depth, all resources, the particle sheet, and the
+frame table (keys = frames × sides/depth × mipmaps in file order, sizes, offsets). Moreover, with
+`v'` the object after `compute_mipmaps()`, the thumbnail block and the block of every frame of that
+table are found at the recorded offsets and are the `save_<fmt>` encodings of the loaded frames. -/
+theorem C15_file_roundtrip (v : Vtf) (minor sheetVer : Nat) (asw : Bool) (file : List Nat)
+    (h : saveFile v minor sheetVer asw = .ok file) (hwf : saveWF v minor sheetVer = true) :
+    readFile file = .ok (viewOf v minor sheetVer (lowLen v)) ∧
+    ∃ v', applyCompute v 4 = .ok v' ∧
+      (v.lowFmt ≠ fmtNone → slice file (lowOff v minor sheetVer) (lowLen v)
+          = saveImg (codecOf v.lowFmt) (v'.low.load.data.getD [])) ∧
+      List.Forall₂ (fun (e : Key × Nat × Nat × Nat) k => e.1 = k ∧
+          (e.2.1, e.2.2.1) = readerDims v.width v.height k.2.2 ∧
+          ∃ fr, frameFor v' k = .ok fr ∧ (fr.w, fr.h) = (e.2.1, e.2.2.1) ∧
+            slice file e.2.2.2 (frameSize (fmtOf v.fmt) e.2.1 e.2.2.1)
+              = saveImg (codecOf v.fmt) (fr.load.data.getD []))
+        (viewOf v minor sheetVer (lowLen v)).frames
+        (fileKeys v.mipCount v.frameCount (depthSeq v.flags minor v.depth)) := by
+  unfold saveFile at h
+  split at h
+  · simp at h
+  · split at h
+    · simp at h
+    · split at h
+      · simp at h
+      · cases hc : applyCompute v 4 with
+        | error e => simp [hc] at h
+        | ok v' =>
+          simp only [hc] at h
+          obtain ⟨hwf', hview⟩ := saveWF_applyCompute v v' 4 minor sheetVer hc hwf
+          obtain ⟨frames', low', rfl, _, _, hw, hh, _⟩ := applyCompute_shape v v' 4 hc
+          have R := assemble_roundtrip _ minor sheetVer asw file h hwf'
+          rw [hview] at R
+          have hlen : lowLen { v with frames := frames', low := low' } = lowLen v := by
+            simp [lowLen, hw, hh]
+          refine ⟨R.1, _, rfl, ?_, ?_⟩
+          · intro hn
+            have := R.2.1 hn
+            simpa [hlen, lowOff, headerSize, dataBlocks, sheetBlock, resCount, hasSheetRes] using this
+          · refine forall2_imp ?_ R.2.2
+            rintro e k ⟨h1, h2, fr, hf, hd, hs⟩
+            exact ⟨h1, h2, fr, hf, by rw [hd, h2], hs⟩
+
+/-- **Per-frame pixels.** A block that is the `save_<fmt>` encoding of byte-valued RGBA data of the
+right size decodes (`Frame.load` of the lazily read frame) to the documented quantisation of that
+data — the data itself for the 8-bit formats, on the channels they store. Together with
+`C15_file_roundtrip`: every frame of `read (save v)` holds `quant` of what `v` held. -/
+theorem C15_file_pixels (file : List Nat) (fmt w h off : Nat) (data : List Nat)
+    (hi : fmt ∈ lawfulInds) (hb : ∀ b ∈ data, b < 256) (hlen : data.length = 4 * w * h)
+    (hs : slice file off (frameSize (fmtOf fmt) w h) = saveImg (codecOf fmt) data) :
+    decodeAt file fmt w h off = .ok (quantImg fmt data) := by
+  have hfacts : fmt < 30 ∧ (codecOf fmt).hasSave = true ∧ (codecOf fmt).hasLoad = true ∧
+      (codecOf fmt).load.isEmpty = false := by
+    simp only [lawfulInds, List.mem_cons, List.mem_nil_iff, or_false] at hi
+    rcases hi with rfl | rfl | rfl | rfl | rfl | rfl | rfl | rfl | rfl | rfl | rfl | rfl | rfl |
+      rfl | rfl | rfl | rfl | rfl <;> decide
+  have E : encodeFrame fmt ⟨w, h, some data, none⟩ = .ok (saveImg (codecOf fmt) data) := by
+    simp [encodeFrame, hlen, hfacts.2.1, pure, Except.pure]
+  have hl := (encodeFrame_ok _ _ _ E).2.2.2
+  simp only at hl
+  unfold decodeAt
+  simp only [hs, hl, ne_eq, not_true_eq_false, if_false, hfacts.2.2.1, hfacts.2.2.2,
+    Bool.not_true, Bool.false_eq_true, pure, Except.pure]
+  rw [(C15_frame_roundtrip fmt hi data hb).1]
+
 /-! ## Non-vacuity: the hypotheses are satisfiable, and the laws visibly bite -/
 
 example : (⟨200, 100, 50, 129⟩ : Px).valid := by decide
@@ -544,6 +657,11 @@ example : frameIndex 4 4 4 0 = none ∧ frameIndex 4 4 (-1) 0 = none ∧ frameIn
 -- a 2-frame 7.4 cubemap with 3 mipmaps has 2*7*3 stored frames, a 7.5 one 2*6*3
 example : (fileKeys 3 2 (depthSeq envmapFlag 4 1)).length = 42 ∧
     (fileKeys 3 2 (depthSeq envmapFlag 5 1)).length = 36 := by decide
+-- the file-level hypotheses are satisfiable: a concrete object is well formed, is saved, and read back
+example : saveWF exampleVtf 4 1 = true := by decide +kernel
+example : (match saveFile exampleVtf 4 1 true with
+    | .ok file => file.length == 1281 && (readFile file == .ok (viewOf exampleVtf 4 1 (lowLen exampleVtf)))
+    | .error _ => false) = true := by decide +kernel
 -- the decision procedure rejects a wrong claim (BGRA4444 does not keep 5 bits)
 example : sameList ((codecOf 19).load.map (E.subst (codecOf 19).save)) qE5551x = false := by decide +kernel
 
